@@ -39,6 +39,103 @@ pub proof fn lemma_view_bounds(x: U256Muldiv)
 {
 }
 
+pub open spec fn pw2(k: nat) -> int decreases k { if k == 0 { 1 } else { 2 * pw2((k - 1) as nat) } }
+pub proof fn lemma_pw2_pos(k: nat) ensures pw2(k) > 0 decreases k { if k > 0 { lemma_pw2_pos((k - 1) as nat); } }
+pub proof fn lemma_pw2_add(a: nat, b: nat) ensures pw2(a + b) == pw2(a) * pw2(b) decreases a
+{
+    if a == 0 { } else { lemma_pw2_add((a - 1) as nat, b); assert(pw2(a + b) == 2 * pw2((a - 1 + b) as nat));
+        assert(2 * (pw2((a - 1) as nat) * pw2(b)) == (2 * pw2((a - 1) as nat)) * pw2(b)) by(nonlinear_arith); }
+}
+pub proof fn lemma_pw2_vals() ensures pw2(0) == 1, pw2(64) == Q(), pw2(96) == 0x1_0000_0000_0000_0000_0000_0000int, pw2(128) == Q2(), pw2(192) == Q3(), pw2(256) == Q4()
+{
+    assert(pw2(0) == 1) by(compute);
+    assert(pw2(64) == 0x1_0000_0000_0000_0000int) by(compute);
+    assert(pw2(96) == 0x1_0000_0000_0000_0000_0000_0000int) by(compute);
+    assert(pw2(128) == 0x1_0000_0000_0000_0000_0000_0000_0000_0000int) by(compute);
+    assert(pw2(192) == 0x1_0000_0000_0000_0000_0000_0000_0000_0000_0000_0000_0000_0000int) by(compute);
+    assert(pw2(256) == 0x1_0000_0000_0000_0000_0000_0000_0000_0000_0000_0000_0000_0000_0000_0000_0000_0000int) by(compute);
+}
+pub proof fn lemma_pw2_pow2(k: nat) ensures pw2(k) == vstd::arithmetic::power2::pow2(k) decreases k
+{
+    if k == 0 { vstd::arithmetic::power2::lemma2_to64(); } else { lemma_pw2_pow2((k - 1) as nat); vstd::arithmetic::power2::lemma_pow2_unfold(k); }
+}
+/// one word of a cross-word right shift by 0 < s < 64, arithmetically: low part of a, plus the s low bits of b on top
+pub proof fn lemma_shift_word(a: u64, b: u64, s: u32)
+    requires 0 < s < 64,
+    ensures ((a >> s) | (b << ((64 - s) as u32))) as int == a as int / pw2(s as nat) + (b as int % pw2(s as nat)) * pw2((64 - s) as nat),
+{
+    let sn = s as nat; let tn = (64 - s) as nat;
+    lemma_pw2_pow2(sn); lemma_pw2_pow2(tn); lemma_pw2_pos(sn); lemma_pw2_pos(tn); lemma_pw2_add(sn, tn); lemma_pw2_vals();
+    let m = pw2(sn); let t = pw2(tn);
+    assert(m * t == Q());
+    assert((a >> s) | (b << ((64 - s) as u32)) == (a >> s) + (b << ((64 - s) as u32))) by(bit_vector) requires 0 < s < 64;
+    assert((a >> s) + (b << ((64 - s) as u32)) <= 0xFFFF_FFFF_FFFF_FFFFu64) by(bit_vector) requires 0 < s < 64;
+    vstd::bits::lemma_u64_shr_is_div(a, s as u64);
+    assert(a >> s == a >> (s as u64));
+    // the left shift drops all but the s low bits of b
+    let mask = ((1u64 << s) - 1) as u64;
+    let bl = b & mask;
+    assert(b << ((64 - s) as u32) == (b & (((1u64 << s) - 1) as u64)) << ((64 - s) as u32)) by(bit_vector) requires 0 < s < 64;
+    lemma_pw2_pos((tn - 1) as nat);
+    assert(t >= 2);
+    assert(m * 2 <= Q()) by(nonlinear_arith) requires m * t == Q(), t >= 2, m > 0;
+    vstd::bits::lemma_u64_shl_is_mul(1u64, s as u64);
+    assert(1u64 << s == 1u64 << (s as u64));
+    assert((1u64 << s) as int == m);
+    vstd::bits::lemma_u64_low_bits_mask_is_mod(b, sn);
+    assert(vstd::bits::low_bits_mask(sn) == m - 1) by { vstd::bits::lemma_low_bits_mask_values(); reveal(vstd::bits::low_bits_mask); }
+    assert(bl as int == b as int % m);
+    vstd::arithmetic::div_mod::lemma_mod_bound(b as int, m);
+    assert(bl as int * t <= (m - 1) * t) by(nonlinear_arith) requires 0 <= bl as int <= m - 1, t > 0;
+    assert((m - 1) * t == Q() - t) by(nonlinear_arith) requires m * t == Q();
+    vstd::bits::lemma_u64_shl_is_mul(bl, (64 - s) as u64);
+    assert(bl << ((64 - s) as u32) == bl << ((64 - s) as u64));
+}
+/// the four words of `r` are the cross-word shift of `w` by 0 < s < 64  ==>  r = floor(w / 2^s)
+pub proof fn lemma_shift_words(w: U256Muldiv, r: U256Muldiv, s: u32)
+    requires 0 < s < 64,
+        forall|k: int| 0 <= k < 3 ==> r.items[k] == ((w.items[k] >> s) | (w.items[k + 1] << ((64 - s) as u32))),
+        r.items[3] == w.items[3] >> s,
+    ensures r.view() == w.view() / pw2(s as nat),
+{
+    let m = pw2(s as nat); let t = pw2((64 - s) as nat);
+    lemma_pw2_pos(s as nat); lemma_pw2_pos((64 - s) as nat); lemma_pw2_add(s as nat, (64 - s) as nat); lemma_pw2_vals(); lemma_q_powers();
+    assert(m * t == Q());
+    let a = w.items[0] as int; let b = w.items[1] as int; let c = w.items[2] as int; let d = w.items[3] as int;
+    lemma_shift_word(w.items[0], w.items[1], s); lemma_shift_word(w.items[1], w.items[2], s); lemma_shift_word(w.items[2], w.items[3], s);
+    let d3 = w.items[3];
+    vstd::bits::lemma_u64_shr_is_div(d3, s as u64); lemma_pw2_pow2(s as nat);
+    assert(d3 >> s == d3 >> (s as u64));
+    assert(r.items[0] == ((w.items[0] >> s) | (w.items[1] << ((64 - s) as u32))));
+    assert(r.items[1] == ((w.items[1] >> s) | (w.items[2] << ((64 - s) as u32))));
+    assert(r.items[2] == ((w.items[2] >> s) | (w.items[3] << ((64 - s) as u32))));
+    let a1 = a / m; let a0 = a % m; let b1 = b / m; let b0 = b % m; let c1 = c / m; let c0 = c % m; let d1 = d / m; let d0 = d % m;
+    vstd::arithmetic::div_mod::lemma_fundamental_div_mod(a, m); vstd::arithmetic::div_mod::lemma_fundamental_div_mod(b, m);
+    vstd::arithmetic::div_mod::lemma_fundamental_div_mod(c, m); vstd::arithmetic::div_mod::lemma_fundamental_div_mod(d, m);
+    vstd::arithmetic::div_mod::lemma_mod_bound(a, m);
+    let nv = (a1 + b0 * t) + (b1 + c0 * t) * Q() + (c1 + d0 * t) * Q2() + d1 * Q3();
+    assert(r.view() == nv);
+    // w = a0 + m * nv, using Q = m*t
+    assert(b0 * Q() == m * (b0 * t)) by(nonlinear_arith) requires Q() == m * t;
+    assert((m * b1) * Q() == m * (b1 * Q())) by(nonlinear_arith);
+    assert(c0 * Q2() == m * ((c0 * t) * Q())) by(nonlinear_arith) requires Q() == m * t, Q2() == Q() * Q();
+    assert((m * c1) * Q2() == m * (c1 * Q2())) by(nonlinear_arith);
+    assert(d0 * Q3() == m * ((d0 * t) * Q2())) by(nonlinear_arith) requires Q() == m * t, Q3() == Q2() * Q();
+    assert((m * d1) * Q3() == m * (d1 * Q3())) by(nonlinear_arith);
+    assert((b0 + m * b1) * Q() == b0 * Q() + (m * b1) * Q()) by(nonlinear_arith);
+    assert((c0 + m * c1) * Q2() == c0 * Q2() + (m * c1) * Q2()) by(nonlinear_arith);
+    assert((d0 + m * d1) * Q3() == d0 * Q3() + (m * d1) * Q3()) by(nonlinear_arith);
+    assert((b1 + c0 * t) * Q() == b1 * Q() + (c0 * t) * Q()) by(nonlinear_arith);
+    assert((c1 + d0 * t) * Q2() == c1 * Q2() + (d0 * t) * Q2()) by(nonlinear_arith);
+    assert(m * nv == m * (a1 + b0 * t) + m * ((b1 + c0 * t) * Q()) + m * ((c1 + d0 * t) * Q2()) + m * (d1 * Q3())) by(nonlinear_arith)
+        requires nv == (a1 + b0 * t) + (b1 + c0 * t) * Q() + (c1 + d0 * t) * Q2() + d1 * Q3();
+    assert(m * (a1 + b0 * t) == m * a1 + m * (b0 * t)) by(nonlinear_arith);
+    assert(m * ((b1 + c0 * t) * Q()) == m * (b1 * Q()) + m * ((c0 * t) * Q())) by(nonlinear_arith) requires (b1 + c0 * t) * Q() == b1 * Q() + (c0 * t) * Q();
+    assert(m * ((c1 + d0 * t) * Q2()) == m * (c1 * Q2()) + m * ((d0 * t) * Q2())) by(nonlinear_arith) requires (c1 + d0 * t) * Q2() == c1 * Q2() + (d0 * t) * Q2();
+    assert(w.view() == a0 + m * nv);
+    assert(m * nv == nv * m) by(nonlinear_arith);
+    vstd::arithmetic::div_mod::lemma_fundamental_div_mod_converse(w.view(), m, nv, a0);
+}
 impl U256Muldiv {
 //@ fn math/u256_math.rs new in=/^impl U256Muldiv \{/ -> r
     ensures
@@ -56,7 +153,7 @@ impl U256Muldiv {
     }
 //@ end
 
-//@ fn math/u256_math.rs copy in=/^impl U256Muldiv \{/ -> r stub
+//@ fn math/u256_math.rs copy in=/^impl U256Muldiv \{/ -> r
     ensures r.items == self.items,
 //@ end
 
@@ -183,9 +280,40 @@ impl U256Muldiv {
     ensures self.view() * other.view() < Q4() ==> r.view() == self.view() * other.view(),
 //@ end
 
-//@ fn math/u256_math.rs shift_right in=/^impl U256Muldiv \{/ -> r stub
-    ensures shift_amount == 64 ==> r.view() == self.view() / Q(),
+//@ fn math/u256_math.rs shift_right in=/^impl U256Muldiv \{/ -> r
+    ensures shift_amount < 256 ==> r.view() == self.view() / pw2(shift_amount as nat),
+        shift_amount >= 256 ==> r.view() == 0,
+        shift_amount == 64 ==> r.view() == self.view() / Q(),
         shift_amount == 96 ==> r.view() == self.view() / 0x1_0000_0000_0000_0000_0000_0000int,
+//@ rewrite_for
+//@ inject at /^\{/
+    let ghost s0 = shift_amount as nat;
+    proof { lemma_pw2_vals(); }
+//@ loop 0
+        invariant shift_amount <= s0, s0 < 256, (s0 - shift_amount) % 64 == 0, result.view() == self.view() / pw2((s0 - shift_amount) as nat),
+        decreases shift_amount,
+//@ inject after /while shift_amount >= U64_RESOLUTION \{/
+            proof {
+                let done = (s0 - shift_amount) as nat;
+                lemma_pw2_pos(done); lemma_pw2_add(done, 64); lemma_pw2_vals();
+                lemma_view_bounds(*self);
+                vstd::arithmetic::div_mod::lemma_div_denominator(self.view(), pw2(done), Q());
+            }
+//@ inject before /if shift_amount == 0 \{/
+    let ghost w = result; let ghost done = (s0 - shift_amount) as nat;
+    proof { assert(pw2(0) == 1) by(compute); }
+//@ loop 1
+        invariant 0 < shift_amount < 64, i_it <= 3, result.items[3] == w.items[3],
+            forall|k: int| 0 <= k < i_it ==> result.items[k] == ((w.items[k] >> shift_amount) | (w.items[k + 1] << ((64 - shift_amount) as u32))),
+            forall|k: int| i_it <= k < 4 ==> result.items[k] == w.items[k],
+        decreases 3 - i_it,
+//@ inject before /^\s*result\s*$/
+    proof {
+        lemma_shift_words(w, result, shift_amount);
+        lemma_pw2_pos(done); lemma_pw2_pos(shift_amount as nat); lemma_pw2_add(done, shift_amount as nat);
+        lemma_view_bounds(*self);
+        vstd::arithmetic::div_mod::lemma_div_denominator(self.view(), pw2(done), pw2(shift_amount as nat));
+    }
 //@ end
 
 //@ fn math/u256_math.rs div in=/^impl U256Muldiv \{/ -> r stub
